@@ -950,3 +950,78 @@ def knows(tests, text: str, pol: bool = True) -> bool:
 def only_knows(tests, text: str, pol: bool = True) -> bool:
     """Exactly that one decision is known."""
     return len(tests) == 1 and knows(tests, text, pol)
+
+
+def dict_display(f, name: str) -> Optional[ast.Dict]:
+    """The dictionary a local ends up as, when it is built by constant-key stores:
+
+        d = {} | dict() | {<literal entries>} ; d["a"] = X ; if c: d["b"] = Y else: d["b"] = Z ; d.update({"k": V})
+
+    becomes the display {"a": X, "b": (Y, Z), "k": V} (a key stored on several branches gets the
+    tuple of its values, so that what each value reads stays visible).  None when the local is not
+    built that way (non-constant keys, handed out / rebound in between)."""
+    node = f.node if isinstance(f, FuncInfo) else f
+    defs = [(st, v) for st, v in local_defs(node, name) if v is not None]
+    if len(defs) != 1:
+        return None
+    dst, dval = defs[0]
+    if isinstance(dval, ast.Call) and call_name(dval) == "dict" and not dval.args:
+        entries = [(k.arg, k.value) for k in dval.keywords if k.arg]
+    elif isinstance(dval, ast.Dict) and all(isinstance(k, ast.Constant) for k in dval.keys):
+        entries = [(k.value, v) for k, v in zip(dval.keys, dval.values)]
+    else:
+        return None
+    found = False
+    for st in walk_ordered(node):
+        if isinstance(st, (ast.Assign, ast.AnnAssign)):
+            tg = st.targets if isinstance(st, ast.Assign) else [st.target]
+            for t in tg:
+                if isinstance(t, ast.Subscript) and dotted(t.value) == name:
+                    if not isinstance(t.slice, ast.Constant) or getattr(st, "value", None) is None:
+                        return None
+                    entries.append((t.slice.value, st.value))
+                    found = True
+        elif isinstance(st, ast.Expr) and isinstance(st.value, ast.Call) and isinstance(st.value.func, ast.Attribute) and dotted(st.value.func.value) == name:
+            c = st.value
+            if c.func.attr == "update" and len(c.args) == 1 and isinstance(c.args[0], ast.Dict) and all(isinstance(k, ast.Constant) for k in c.args[0].keys) and not c.keywords:
+                entries += [(k.value, v) for k, v in zip(c.args[0].keys, c.args[0].values)]
+                found = True
+            elif c.func.attr == "update" and not c.args and c.keywords and all(k.arg for k in c.keywords):
+                entries += [(k.arg, k.value) for k in c.keywords]
+                found = True
+            elif c.func.attr == "update" and len(c.args) == 1 and not c.keywords:
+                entries.append((None, c.args[0]))  # **mapping: unknown keys, kept as a spread entry
+                found = True
+            elif c.func.attr in ("pop", "clear", "popitem", "setdefault", "update"):
+                return None
+    if not found and not isinstance(dval, ast.Dict):
+        return None
+    merged: dict = {}
+    for k, v in entries:
+        merged.setdefault(k, []).append(v)
+    keys, values = [], []
+    for k, vs in merged.items():
+        if k is None:
+            for v_ in vs:
+                keys.append(None)
+                values.append(v_)
+            continue
+        keys.append(ast.Constant(value=k))
+        if len(vs) == 1:
+            values.append(vs[0])
+        else:
+            # nested writes into an entry first bound to {} (d["k"] = {}; d["k"][x] = v) keep their values visible too
+            values.append(ast.Tuple(elts=list(vs), ctx=ast.Load()))
+    # stores one level below: d["k"][...] = V  ->  V joins the values of key "k"
+    for st in walk_ordered(node):
+        if isinstance(st, ast.Assign):
+            for t in st.targets:
+                if isinstance(t, ast.Subscript) and isinstance(t.value, ast.Subscript) and dotted(t.value.value) == name and isinstance(t.value.slice, ast.Constant):
+                    k = t.value.slice.value
+                    for i, kk in enumerate(keys):
+                        if kk is not None and kk.value == k:
+                            old = values[i]
+                            # what the stored value derives from includes the sequences the enclosing loops walk
+                            its = [a_.iter for a_ in ancestors(st) if isinstance(a_, (ast.For, ast.AsyncFor))]
+                            values[i] = ast.Tuple(elts=(list(old.elts) if isinstance(old, ast.Tuple) else [old]) + [st.value] + its, ctx=ast.Load())
+    return ast.fix_missing_locations(ast.copy_location(ast.Dict(keys=keys, values=values), dval))
